@@ -80,8 +80,14 @@ class Result(object):
     return cond
 
   def floor(self, rule, n):
-    """Vacuity guard: the rule must see at least n instances."""
-    self.floors[rule] = max(n, self.floors.get(rule, 0))
+    """Vacuity guard: the rule must see (nearly) as many instances as were
+    confirmed by hand on the reference tree.  n is the confirmed count; a
+    quarter of it may disappear (two sites merged into a helper, a loop
+    replacing two copies) before the rule is called vacuous - a rule that
+    lost more than that no longer looks at the code it was written for."""
+    import math
+    eff = n if n < 4 else int(math.ceil(0.75 * n))
+    self.floors[rule] = max(eff, self.floors.get(rule, 0))
 
   def note(self, text):
     self.notes.append(text)
